@@ -313,8 +313,9 @@ def run_property(prop, modname, tier, seed):
         "wall_s": round(wall, 3),
         "violations": len(unknown),
     }
-    os.makedirs(os.path.join(VERIF, "evidence"), exist_ok=True)
-    epath = os.path.join(VERIF, "evidence", f"{prop}.json")
+    edir = os.environ.get("VERIF_EVIDENCE_DIR") or os.path.join(VERIF, "evidence")
+    os.makedirs(edir, exist_ok=True)
+    epath = os.path.join(edir, f"{prop}.json")
     with open(epath, "w") as f:
         json.dump(evidence, f, indent=1, sort_keys=True)
     ok_schema = validate_evidence(epath)
